@@ -38,6 +38,9 @@ def run(chk, facts_dir, tier):
                       "a guard, or a frozen allow-list entry with a reason; debug_assert! and tokio::select! internals are excluded")
     chk.rule("R22.2", "ERROR MAPPING: in all three handle_request_failable implementations a handler Err becomes Ok(Some(SimpleError)); Command::handle turns a parse error into "
                       "SimpleError; io::Error values returned from the connection task originate from socket calls only")
+    chk.rule("R22.3", "NO SILENT WRAP OF REQUEST VALUES: a narrowing integer cast in a request handler whose operand is computed from the request's own fields (a timestamp, a count, a "
+                      "version sent by the client) is proven lossless by the interval analysis or replaced by a checked conversion; otherwise an out-of-range argument is accepted and "
+                      "stored as a different value instead of being rejected with an error")
     chk.not_decided += ["that replies equal the reference event-store model (values)", "has_more flags and version numbers in replies (e.g. seeded/C22: EMAPPEND reports a version that is "
                         "too low for a multi-stream transaction) - arithmetic on runtime values, not decided"]
     n = 0
@@ -73,6 +76,33 @@ def run(chk, facts_dir, tier):
     for (root, key) in sorted(stale):
         # an allow-list entry that no longer matches anything is reported as a note, not a violation
         chk.notes.append("allow-list entry no longer matched: %s %s" % (root, key))
+    # ---------------- R22.3
+    n_cast = 0
+    for p in sorted(prog.bodies):
+        if "HandleRequest>::handle_request" not in p:
+            continue
+        b = prog.bodies[p]
+        done, opn = panic.audit(prog, b, include_casts=True)
+        ev = None
+        donesites = [d[0] for d in done]
+        for s_ in donesites + list(opn):
+            if s_.kind != "cast":
+                continue
+            n_cast += 1
+            ev = ev or Ev(prog, b)
+            from ..flow import resolve_upvars
+            term = resolve_upvars(prog, ev.operand(s_.ops[0], (s_.block, "T")), b)
+            from_request = any(isinstance(x, tuple) and x and x[0] == "field" and strip(x[1])[0] == "param" and strip(x[1])[1] == 1 for x in walk(term))
+            root = (b.root or b.path).replace(S, "")
+            if s_ in donesites:
+                chk.ok("R22.3", "%s L%d %s: lossless by interval" % (root[-50:], s_.line, s_.what), b.where(s_.line))
+            elif not from_request:
+                chk.ok("R22.3", "%s L%d %s: operand is not computed from the request (%s)" % (root[-50:], s_.line, s_.what, show(term)[:50]), b.where(s_.line))
+            else:
+                chk.fail("R22.3", S + root, "lossy-cast:%s" % s_.what, "a value computed from the request (%s) is narrowed with `as` and can wrap: the request is accepted with a different "
+                         "value instead of being rejected" % show(term)[:90], b, s_.line)
+    chk.floor("R22.3", n_cast, 2)
+
     # ESub / EPSub handle_request never return Ok(None)
     for nm in ("esub::ESub", "epsub::EPSub"):
         hb = prog.bodies.get(S + "<request::%s as request::HandleRequest>::handle_request::{closure#0}" % nm)
